@@ -175,7 +175,7 @@ def plan(prop, tier):
     if prop == 'C06':
         disc = [dict(gen_bfs('T', 2, extra='LockExtra'), trace='Trace_LockDisc', name='lockdiscT'), dict(gen_bfs('C', 1 if q else 2, extra='LockExtra'), trace='Trace_LockDisc', name='lockdiscC')]
         disc.append(subF(gen_bfs('F', 2, sample=0.08 if q else 0.5, module='MC_RouterF', name='callerslices')))   # a call never writes into the middleware slice its caller still owns
-        return {'stages': lock_stages(q) + disc + [conc_stage('c06', 4, 6 if q else 60, 3, 20 if q else 60)], 'rule': RULE_CONC, 'assumptions': ASSUME_CONC}
+        return {'stages': lock_stages(q) + disc + [conc_stage('c06', 5, 10 if q else 60, 3, 25 if q else 60)], 'rule': RULE_CONC, 'assumptions': ASSUME_CONC}
     if prop == 'C07':
         return {'stages': globals_stages(q) + group_stages(2, 'C13', 0.1 if q else 0.5)[2:] + [conc_stage('c07inst', 4, 2 if q else 30, 2, 15 if q else 40), conc_stage('c07quiet', 6, 2 if q else 30, 3, 15 if q else 40, 1),
                                                conc_stage('c07seq', 8, 6 if q else 80, 1, 0, 2), conc_stage('c07fresh', 2 if q else 3, None, 1, 0), conc_stage('c07group', 6, 2 if q else 30, 3, 15 if q else 40, 3)], 'rule': RULE_CONC, 'assumptions': ASSUME_CONC}
